@@ -749,6 +749,217 @@ Proof.
     assert (k = r1) by lia. assert (k = r2) by lia. subst. reflexivity.
 Qed.
 
+(* ================================================================ rows are the transpose *)
+Lemma pget_idperm nr r : 0 <= r < Z.of_nat nr -> pget (idperm nr) r = r.
+Proof.
+  intros Hr. unfold pget, idperm. assert (r <? 0 = false) as -> by lia.
+  rewrite (nth_indep _ r (Z.of_nat O)) by (rewrite map_length, seq_length; lia).
+  rewrite map_nth. rewrite seq_nth by lia. lia.
+Qed.
+(* columns whose stored entries are exactly their non-zero content (what the row containers link) *)
+Definition c_rowview_ok (c : acol) : Prop :=
+  match c with ASp l => nonzero l | ALazy z => nonzero (fst z) /\ snd z = [] | AHeap _ => False end.
+Lemma c_rowview_get p c r : c_rowview_ok c -> c_get p c r = sget (c_linked c) r /\ (shas (c_linked c) r = true <-> sget (c_linked c) r <> 0).
+Proof.
+  destruct c as [l|h|z]; cbn [c_rowview_ok c_get c_linked c_raw]; intros H.
+  - split; [reflexivity|apply shas_iff_nonzero; exact H].
+  - contradiction.
+  - destruct H as [H1 H2]. split; [unfold lz_get; rewrite H2; reflexivity|apply shas_iff_nonzero; exact H1].
+Qed.
+
+Theorem rows_are_transpose p nr m r : a_i2r m = idperm nr -> 0 <= r < Z.of_nat nr ->
+  (forall c, In (Some c) (a_cols m) -> c_rowview_ok c) -> a_row m r = d_row (a_abs p nr m) r.
+Proof.
+  intros Hid Hr Hok. unfold a_row, d_row, a_abs. cbn [d_cols]. rewrite Hid. generalize 0 as j.
+  induction (a_cols m) as [|o t IH]; intros j; [reflexivity|].
+  cbn [a_row_aux d_row_aux map]. rewrite IH by (intros c Hc; apply Hok; right; exact Hc). f_equal.
+  destruct o as [c|]; [|reflexivity].
+  change (map (fun r0 : nat => c_get p c (pget (idperm nr) (Z.of_nat r0))) (seq 0 nr)) with (read_col p nr (idperm nr) c).
+  rewrite read_col_get by exact Hr. rewrite pget_idperm by exact Hr.
+  destruct (c_rowview_get p c r (Hok c (or_introl eq_refl))) as [Hg Hs]. rewrite Hg.
+  destruct (shas (c_linked c) r) eqn:E.
+  - assert (sget (c_linked c) r <> 0) by (apply Hs; reflexivity). assert (sget (c_linked c) r =? 0 = false) as -> by lia. reflexivity.
+  - assert (sget (c_linked c) r = 0) by (apply sget_shas_false; exact E). assert (sget (c_linked c) r =? 0 = true) as -> by lia. reflexivity.
+Qed.
+
+(* ================================================================ the deferred reordering (_orderRows) is invisible *)
+Fixpoint distinct (l : svec) : Prop := match l with [] => True | e :: t => shas t (fst e) = false /\ distinct t end.
+Definition rows_in (nr : nat) (l : svec) : Prop := forall e, In e l -> 0 <= fst e < Z.of_nat nr.
+Definition relabel (f : Z -> Z) (l : svec) : svec := map (fun e => (f (fst e), snd e)) l.
+
+Lemma sorted_distinct l : sorted l -> distinct l.
+Proof.
+  induction l as [|e t IH]; simpl; intros H; [exact I|]. destruct H as [H1 H2]. split; [|auto].
+  apply rows_gt_shas with (fst e); [exact H1|lia].
+Qed.
+Lemma shas_sinsert e s r : shas (sinsert e s) r = (fst e =? r) || shas s r.
+Proof.
+  induction s as [|h t IH]; [destruct e; simpl; rewrite orb_false_r; reflexivity|].
+  cbn [sinsert]. destruct (fst e <? fst h).
+  - destruct e; reflexivity.
+  - destruct h as [rh vh]. cbn [shas]. rewrite IH. destruct (fst e =? r); destruct (rh =? r); reflexivity.
+Qed.
+Lemma sget_sinsert e s r : shas s (fst e) = false -> sget (sinsert e s) r = if fst e =? r then snd e else sget s r.
+Proof.
+  induction s as [|h t IH]; intros Hn; [destruct e; reflexivity|].
+  cbn [sinsert]. destruct (fst e <? fst h).
+  - destruct e; reflexivity.
+  - destruct h as [rh vh]. cbn [shas] in Hn. apply orb_false_iff in Hn. destruct Hn as [Hn1 Hn2].
+    cbn [sget]. rewrite IH by exact Hn2. destruct (rh =? r) eqn:E1; destruct (fst e =? r) eqn:E2; try reflexivity. lia.
+Qed.
+Lemma shas_ssort l r : shas (ssort l) r = shas l r.
+Proof.
+  induction l as [|e t IH]; [reflexivity|]. unfold ssort. cbn [fold_right]. fold (ssort t).
+  rewrite shas_sinsert, IH. destruct e; reflexivity.
+Qed.
+Lemma sget_ssort l r : distinct l -> sget (ssort l) r = sget l r.
+Proof.
+  induction l as [|e t IH]; intros Hd; [reflexivity|]. destruct Hd as [H1 H2].
+  unfold ssort. cbn [fold_right]. fold (ssort t). rewrite sget_sinsert by (rewrite shas_ssort; exact H1).
+  rewrite IH by exact H2. destruct e; reflexivity.
+Qed.
+
+Section Relabel.
+  Variables (nr : nat) (f g : Z -> Z).
+  Hypothesis Hfg : forall q, 0 <= q < Z.of_nat nr -> 0 <= f q < Z.of_nat nr /\ g (f q) = q.
+  Hypothesis Hgf : forall k, 0 <= k < Z.of_nat nr -> 0 <= g k < Z.of_nat nr /\ f (g k) = k.
+
+  Lemma relabel_eqb q k : 0 <= q < Z.of_nat nr -> 0 <= k < Z.of_nat nr -> (f q =? k) = (q =? g k).
+  Proof.
+    intros Hq Hk. destruct (Hfg q Hq) as [_ H1]. destruct (Hgf k Hk) as [_ H2].
+    destruct (f q =? k) eqn:E1; destruct (q =? g k) eqn:E2; try reflexivity.
+    - assert (f q = k) by lia. subst k. lia.
+    - assert (q = g k) by lia. subst q. lia.
+  Qed.
+  Lemma sget_relabel l k : rows_in nr l -> 0 <= k < Z.of_nat nr -> sget (relabel f l) k = sget l (g k).
+  Proof.
+    intros Hin Hk. induction l as [|[q v] t IH]; [reflexivity|]. cbn [relabel map sget fst snd].
+    rewrite relabel_eqb by (try exact Hk; apply (Hin (q, v)); left; reflexivity).
+    destruct (q =? g k); [reflexivity|]. apply IH. intros e He. apply Hin. right. exact He.
+  Qed.
+  Lemma shas_relabel l k : rows_in nr l -> 0 <= k < Z.of_nat nr -> shas (relabel f l) k = shas l (g k).
+  Proof.
+    intros Hin Hk. induction l as [|[q v] t IH]; [reflexivity|]. cbn [relabel map shas fst snd].
+    rewrite relabel_eqb by (try exact Hk; apply (Hin (q, v)); left; reflexivity).
+    f_equal. apply IH. intros e He. apply Hin. right. exact He.
+  Qed.
+  Lemma hsum_relabel p l k : rows_in nr l -> 0 <= k < Z.of_nat nr -> hsum p (relabel f l) k = hsum p l (g k).
+  Proof.
+    intros Hin Hk. induction l as [|[q v] t IH]; [reflexivity|]. cbn [relabel map hsum fold_right fst snd].
+    change (fold_right _ 0 (map _ t)) with (hsum p (relabel f t) k). change (fold_right _ 0 t) with (hsum p t (g k)).
+    rewrite relabel_eqb by (try exact Hk; apply (Hin (q, v)); left; reflexivity).
+    rewrite IH by (intros e He; apply Hin; right; exact He). reflexivity.
+  Qed.
+  Lemma distinct_relabel l : rows_in nr l -> distinct l -> distinct (relabel f l).
+  Proof.
+    induction l as [|[q v] t IH]; intros Hin Hd; [exact I|]. destruct Hd as [H1 H2]. cbn [relabel map distinct fst snd].
+    assert (Hq : 0 <= q < Z.of_nat nr) by (apply (Hin (q, v)); left; reflexivity).
+    assert (Ht : rows_in nr t) by (intros e He; apply Hin; right; exact He).
+    split; [|apply IH; assumption].
+    change (map _ t) with (relabel f t). destruct (Hfg q Hq) as [Hr Hinv]. rewrite shas_relabel by assumption.
+    rewrite Hinv. exact H1.
+  Qed.
+End Relabel.
+
+Lemma rows_in_filter nr f l : rows_in nr l -> rows_in nr (filter f l).
+Proof. intros H e He. apply filter_In in He. apply H. tauto. Qed.
+Lemma distinct_filter f l : distinct l -> distinct (filter f l).
+Proof.
+  induction l as [|e t IH]; intros H; [exact I|]. destruct H as [H1 H2]. cbn [filter].
+  assert (Hs : forall r, shas t r = false -> shas (filter f t) r = false).
+  { clear. induction t as [|[a b] t IH]; intros r H; [reflexivity|]. cbn [shas] in H. apply orb_false_iff in H. destruct H.
+    cbn [filter]. destruct (f (a, b)); [cbn [shas]; rewrite IH by assumption; rewrite H; reflexivity|auto]. }
+  destruct (f e); [split; [apply Hs; exact H1|auto]|auto].
+Qed.
+
+(* entries returned by _pop_pivot come from the column *)
+Lemma in_sdel l r e : In e (sdel l r) -> In e l.
+Proof. unfold sdel. intros H. apply filter_In in H. tauto. Qed.
+Lemma hp_pop_in p : forall fuel l o rest, hp_pop fuel p l = (o, rest) ->
+  (forall e, In e rest -> In e l) /\ (forall r v, o = Some (r, v) -> exists v', In (r, v') l).
+Proof.
+  induction fuel as [|f IH]; intros l o rest H.
+  - simpl in H. inversion H; subst. split; [auto|discriminate].
+  - destruct l as [|e t]; [simpl in H; inversion H; subst; split; [auto|discriminate]|].
+    cbn [hp_pop] in H. set (l := e :: t) in *. remember (hmax l) as mx eqn:Emx. remember (hsum p l mx) as vv eqn:Evv.
+    destruct (vv =? 0).
+    + destruct (IH _ _ _ H) as [H1 H2]. split.
+      * intros e0 He0. apply in_sdel with mx. apply H1. exact He0.
+      * intros r v Ho. destruct (H2 r v Ho) as [v' Hv']. exists v'. apply in_sdel with mx. exact Hv'.
+    + injection H as Ho Hr. subst rest. split.
+      * intros e0 He0. apply in_sdel with mx. exact He0.
+      * intros r v Ho'. rewrite <- Ho in Ho'. injection Ho' as Hr' _. subst r. rewrite Emx. apply hmax_in. unfold l. congruence.
+Qed.
+Lemma hp_pop_all_rows_in p nr : forall fuel l, rows_in nr l -> rows_in nr (hp_pop_all fuel p l).
+Proof.
+  induction fuel as [|f IH]; intros l Hin; [intros e []|].
+  cbn [hp_pop_all]. destruct (hp_pop (S (length l)) p l) as [[[r v]|] rest] eqn:E; [|intros e []].
+  destruct (hp_pop_in p _ _ _ _ E) as [H1 H2].
+  intros e [<-|He].
+  - destruct (H2 r v eq_refl) as [v' Hv']. apply (Hin (r, v')). exact Hv'.
+  - apply (IH rest); [|exact He]. intros e0 He0. apply Hin. apply H1. exact He0.
+Qed.
+
+Definition c_ok (nr : nat) (c : acol) : Prop :=
+  match c with
+  | ASp l => sorted l /\ rows_in nr l
+  | AHeap h => rows_in nr (fst h)
+  | ALazy z => sorted (fst z) /\ rows_in nr (fst z)
+  end.
+
+(* a column relabelled by f reads at row k what it read at row g k, when g inverts f on the rows *)
+Lemma c_reorder_get p nr f g c k : 0 < p ->
+  (forall q, 0 <= q < Z.of_nat nr -> 0 <= f q < Z.of_nat nr /\ g (f q) = q) ->
+  (forall k, 0 <= k < Z.of_nat nr -> 0 <= g k < Z.of_nat nr /\ f (g k) = k) ->
+  c_ok nr c -> 0 <= k < Z.of_nat nr -> c_get p (c_reorder p f c) k = c_get p c (g k).
+Proof.
+  intros Hp Hfg Hgf Hok Hk. destruct c as [l|h|z]; cbn [c_reorder c_get c_ok] in *.
+  - destruct Hok as [Hs Hin]. change (map _ l) with (relabel f l).
+    rewrite sget_ssort by (apply (distinct_relabel nr f g Hfg Hgf); [exact Hin|apply sorted_distinct; exact Hs]).
+    apply (sget_relabel nr f g Hfg Hgf); assumption.
+  - unfold hp_reorder. cbn [fst]. change (map _ ?L) with (relabel f L).
+    rewrite (hsum_relabel nr f g Hfg Hgf) by (try exact Hk; apply hp_pop_all_rows_in; exact Hok).
+    apply hp_pop_all_content; [exact Hp|lia].
+  - destruct Hok as [Hs Hin]. unfold lz_reorder. change (map _ ?L) with (relabel f L).
+    unfold lz_get at 1. cbn [fst snd zmem existsb].
+    assert (Hlin : rows_in nr (lz_live z)) by (apply rows_in_filter; exact Hin).
+    assert (Hld : distinct (lz_live z)) by (apply distinct_filter; apply sorted_distinct; exact Hs).
+    rewrite sget_ssort by (apply (distinct_relabel nr f g Hfg Hgf); assumption).
+    rewrite (sget_relabel nr f g Hfg Hgf) by assumption. symmetry. apply lz_get_live.
+Qed.
+
+Lemma length_pset l r x : length (pset l r x) = length l.
+Proof. unfold pset, dset. destruct (r <? 0); [reflexivity|apply length_dset_nat]. Qed.
+Lemma pget_reset_below : forall n l i k, 0 <= i -> i + Z.of_nat n <= Z.of_nat (length l) -> 0 <= k ->
+  pget (reset_below l i n) k = if (i <=? k) && (k <? i + Z.of_nat n) then k else pget l k.
+Proof.
+  induction n as [|n IH]; intros l i k Hi Hn Hk.
+  - cbn [reset_below]. destruct ((i <=? k) && (k <? i + Z.of_nat 0)) eqn:E; [lia|reflexivity].
+  - cbn [reset_below]. rewrite IH by (rewrite ?length_pset; lia). rewrite pget_pset by lia.
+    destruct (i + 1 <=? k) eqn:E1; destruct (k <? i + 1 + Z.of_nat n) eqn:E2; destruct (i <=? k) eqn:E3;
+      destruct (k <? i + Z.of_nat (S n)) eqn:E4; destruct (k =? i) eqn:E5; cbn [andb]; try reflexivity; lia.
+Qed.
+
+Theorem order_rows_invisible p nr mapc ra m : 0 < p ->
+  length (a_i2r m) = nr -> length (a_r2i m) = nr ->
+  (forall r, 0 <= r < Z.of_nat nr -> 0 <= pget (a_i2r m) r < Z.of_nat nr /\ pget (a_r2i m) (pget (a_i2r m) r) = r) ->
+  (forall q, 0 <= q < Z.of_nat nr -> 0 <= pget (a_r2i m) q < Z.of_nat nr /\ pget (a_i2r m) (pget (a_r2i m) q) = q) ->
+  (forall c, In (Some c) (a_cols m) -> c_ok nr c) ->
+  a_abs p nr (a_order (all_fixed ra) mapc p m) = a_abs p nr m.
+Proof.
+  intros Hp Hl1 Hl2 Hir Hri Hok. unfold a_order. destruct (a_sw m); [|reflexivity].
+  unfold a_abs. cbn [a_cols a_next a_i2r all_fixed f_order_fix]. f_equal.
+  rewrite map_map. apply map_ext_in. intros [c|] Hc; [|reflexivity]. f_equal.
+  change (read_col p nr (reset_below (a_i2r m) 0 (length (a_i2r m))) (c_reorder p (pget (a_r2i m)) c) = read_col p nr (a_i2r m) c).
+  apply dvec_ext.
+  - unfold read_col. rewrite !map_length. reflexivity.
+  - intros k Hk. assert (Hk' : 0 <= k < Z.of_nat nr) by (unfold read_col in Hk; rewrite map_length, seq_length in Hk; exact Hk).
+    rewrite !read_col_get by exact Hk'.
+    rewrite pget_reset_below by lia.
+    assert ((0 <=? k) && (k <? 0 + Z.of_nat (length (a_i2r m))) = true) as -> by lia.
+    apply (c_reorder_get p nr (pget (a_r2i m)) (pget (a_i2r m))); try assumption. apply Hok. exact Hc.
+Qed.
+
 (* the code as found (before commit 2044b50d4): with more rows than columns the deferred reordering leaves the
    dictionaries half reset, and what is read changes although no operation happened *)
 Theorem order_rows_as_found_refuted :
@@ -781,3 +992,19 @@ Proof.
 Qed.
 Example ex_sparse_axpy : sp_mta 5 3 [(0, 1); (2, 3)] [(0, 2); (1, 4); (2, 1)] = [(1, 4)].
 Proof. reflexivity. Qed.
+
+Example ex_order_rows_hypotheses :
+  let m := a_swap_rows (a_insert (all_fixed false) false 0 5 (a_empty 3) [(0, 1); (2, 3)]) 0 2 in
+  length (a_i2r m) = 3%nat /\ length (a_r2i m) = 3%nat /\ a_sw m = true /\
+  (forall r, 0 <= r < 3 -> 0 <= pget (a_i2r m) r < 3 /\ pget (a_r2i m) (pget (a_i2r m) r) = r) /\
+  (forall q, 0 <= q < 3 -> 0 <= pget (a_r2i m) q < 3 /\ pget (a_i2r m) (pget (a_r2i m) q) = q) /\
+  (forall c, In (Some c) (a_cols m) -> c_ok 3 c).
+Proof.
+  cbv zeta. split; [reflexivity|]. split; [reflexivity|]. split; [reflexivity|].
+  split; [|split].
+  - intros r Hr. assert (H : r = 0 \/ r = 1 \/ r = 2) by lia. destruct H as [-> | [-> | ->]]; vm_compute; (split; [split; congruence|reflexivity]).
+  - intros r Hr. assert (H : r = 0 \/ r = 1 \/ r = 2) by lia. destruct H as [-> | [-> | ->]]; vm_compute; (split; [split; congruence|reflexivity]).
+  - intros c [Hc|[]]. vm_compute in Hc. injection Hc as <-. cbn [c_ok]. split.
+    + simpl. intuition lia.
+    + intros e [<-|[<-|[]]]; simpl; lia.
+Qed.
